@@ -26,6 +26,9 @@
 (*   <<"ret",v>>                                                                                               *)
 (*   vector registers x1,x2,... (a second, independent unbounded set; lane 0 holds a 16-bit value):              *)
 (*   <<"vset",x,s>> (movd x,s)  <<"vget",d,x>> (movd d,x)  <<"vmov",x,y>>  <<"vxor",x,y>> <<"vor",x,y>> <<"vand",x,y>> *)
+(*   <<"vandn",x,y>>  (x := ~x & y: pandn / vpandn x,x,y / bic - note the operand order)                               *)
+(*   with more than 16 vector registers the x86-64 builder enables AVX-512 in the frame and uses the VEX forms vpand,    *)
+(*   vpandn, vpor, vpxor, vmovdqa, vmovdqu (the allocator rewrites them to their EVEX twins for registers 16..31)        *)
 (*   <<"vinitall",lo,hi>>  (x := InitConst(1000+x))   <<"vfold",acc,lo,hi>>  (acc := acc*31 + x ...)              *)
 (*   64-bit general registers q1,q2,... (a third set; value = <<hi,lo>>: upper / lower 32-bit half, each holding   *)
 (*   a 16-bit quantity; they share the GP register file with the 32-bit registers):                               *)
@@ -107,7 +110,7 @@ XRegsOf(I) ==
   LET op == I[1] IN
   CASE op = "vset" -> <<I[2]>>
     [] op = "vget" -> <<I[3]>>
-    [] op \in {"vmov", "vxor", "vor", "vand", "vinitall"} -> <<I[2], I[3]>>
+    [] op \in {"vmov", "vxor", "vor", "vand", "vandn", "vinitall"} -> <<I[2], I[3]>>
     [] op = "vfold" -> <<I[3], I[4]>>
     [] OTHER -> <<>>
 RECURSIVE ProgMaxXReg(_, _)
@@ -133,7 +136,7 @@ XReads(I) ==
   LET op == I[1] IN
   CASE op = "vget" -> {I[3]}
     [] op = "vmov" -> {I[3]}
-    [] op \in {"vxor", "vor", "vand"} -> {I[2], I[3]}
+    [] op \in {"vxor", "vor", "vand", "vandn"} -> {I[2], I[3]}
     [] op = "vfold" -> I[3]..I[4]
     [] OTHER -> {}
 QReads(I) ==
@@ -157,7 +160,7 @@ QFoldVal(q, acc, lo, hi) ==
   ELSE QFoldVal(q, (Mul16((Mul16(acc, 31) + q[lo][1]) % M16, 31) + q[lo][2]) % M16, lo + 1, hi)
 XWrites(I) ==
   LET op == I[1] IN
-  CASE op \in {"vset", "vmov", "vxor", "vor", "vand"} -> {I[2]}
+  CASE op \in {"vset", "vmov", "vxor", "vor", "vand", "vandn"} -> {I[2]}
     [] op = "vinitall" -> I[2]..I[3]
     [] OTHER -> {}
 FoldVal(r, acc, lo, hi) == IF lo > hi THEN acc ELSE FoldVal(r, (Mul16(acc, 31) + r[lo]) % M16, lo + 1, hi)
@@ -186,7 +189,7 @@ Reads(I) ==
     [] op = "ret" -> {I[2]}
     [] op = "vset" -> {I[3]}
     [] op = "vfold" -> {I[2]}
-    [] op \in {"vget", "vmov", "vxor", "vor", "vand", "vinitall"} -> {}
+    [] op \in {"vget", "vmov", "vxor", "vor", "vand", "vandn", "vinitall"} -> {}
     [] op = "qset" -> {I[3], I[4]}
     [] op \in {"qsx", "qset16", "qset8", "qsh", "call4"} -> {I[3]}
     [] op = "call3" -> {I[4]}
@@ -283,6 +286,7 @@ Exec(prog, m) ==
     [] op = "vxor" -> [m1 EXCEPT !.x[I[2]] = x[I[2]] ^^ x[I[3]], !.pc = @ + 1]
     [] op = "vor"  -> [m1 EXCEPT !.x[I[2]] = x[I[2]] | x[I[3]], !.pc = @ + 1]
     [] op = "vand" -> [m1 EXCEPT !.x[I[2]] = x[I[2]] & x[I[3]], !.pc = @ + 1]
+    [] op = "vandn" -> [m1 EXCEPT !.x[I[2]] = (65535 - x[I[2]]) & x[I[3]], !.pc = @ + 1]
     [] op = "vinitall" -> [m1 EXCEPT !.x = [v \in DOMAIN x |-> IF v \in I[2]..I[3] THEN InitConst(1000 + v) ELSE x[v]], !.pc = @ + 1]
     [] op = "vfold" -> Set(m1, I[2], FoldVal(x, r[I[2]], I[3], I[4]))
     [] op = "qset" -> [m1 EXCEPT !.q[I[2]] = <<r[I[3]], r[I[4]]>>, !.pc = @ + 1]
